@@ -284,6 +284,14 @@ pub fn run_property(prop: &str, tier: &str, units: Vec<Unit>, threads: usize, on
         let is_known = |sig: &str| known.is_known(prop, sig).is_some();
         match &u.kind {
             UnitKind::Explore { bounds, run } => {
+                // thorough tier: deep bounds, but each unit gets a wall-clock budget; exploration is lowest-cost-first, so a
+                // unit that runs out of budget reports the deviation cost up to which it is complete
+                let mut bounds = bounds.clone();
+                if tier == "thorough" && bounds.d > 0 {
+                    let budget: u64 = std::env::var("VERIF_THOROUGH_UNIT_WALL").ok().and_then(|s| s.parse().ok()).unwrap_or(120);
+                    bounds.max_wall = bounds.max_wall.min(std::time::Duration::from_secs(budget));
+                }
+                let bounds = &bounds;
                 let r = explore(&u.name, bounds, run.clone(), &is_known, threads);
                 let mut g = PROGRESS.lock().unwrap();
                 let p = g.as_mut().unwrap();
